@@ -178,6 +178,11 @@ def run(chk):
         dfj = _pd.DataFrame({"a": [rng.choice(["CA", "CB", "C", None]) for _ in range(n_)], "b": [rng.choice(["x", "y", None]) for _ in range(n_)],
                             "c": [rng.choice(["1", "2"]) for _ in range(n_)]}, index=rng.sample(range(50), n_))
         cols_ = rng.choice([["a", "b"], ["a", "b", "c"], ["b", "a"]])
+        if _ % 3 == 0:
+            # columns whose names are also names of DataFrame methods / helper columns (count, size, index)
+            ren_ = {"a": "count", "b": "size", "c": "index"}
+            dfj = dfj.rename(columns=ren_)
+            cols_ = [ren_[c_] for c_ in cols_]
         gap = rng.choice(["_", "|"])
         joined = [gap.join("" if dfj.iloc[i][c] is None or dfj.iloc[i][c] != dfj.iloc[i][c] else str(dfj.iloc[i][c]) for c in cols_) for i in range(n_)]
         r1 = core.call_real(lambda: float(st.stdpc_joint(dfj, cols_, gap_token=gap)) if gap != "_" else float(st.stdpc_joint(dfj, cols_)))
@@ -220,10 +225,12 @@ def run(chk):
     cats = [("CAS", "SF"), ("CASS", "F"), ("CA", "SSF")]
     pr = [Fraction(1, 2), Fraction(1, 3), Fraction(1, 6)]
     cats_concat = cats
-    for N, colnames in ((2, ["CDR3A", "CDR3B"]), (3, ["CDR3A", "CDR3B"]), (3, ["cdr3", "cdr3"]), (2, ["v", "v"]), (3, ["id", "x"])):   # (also two columns sharing one label)
+    for N, colnames in ((2, ["CDR3A", "CDR3B"]), (3, ["CDR3A", "CDR3B"]), (3, ["cdr3", "cdr3"]), (2, ["v", "v"]), (3, ["id", "x"]), (3, ["nl", "x"])):   # (also two columns sharing one label)
         # with a shared label the categories differ in the FIRST of the same-named columns only; numeric ids that differ in the 7th digit
         cats = (cats_concat if colnames[0] != colnames[1] else [("CA", "X"), ("CB", "X"), ("CA", "Y")]) if colnames[0] != "id" else \
             [(1234567, 0.5), (1234568, 0.5), (1234569, 0.5)]
+        if colnames[0] == "nl":        # cells holding line-breaking characters are cells like any other
+            cats = [("CA\nSS", "x"), ("CA", "x"), ("SS", "x")]
         tot = Fraction(0)
         for xs in itertools.product(range(3), repeat=N):
             w = Fraction(1)
